@@ -896,8 +896,10 @@ FILEN = ['f.txt', 'trail ', 'a b.dat', 'ünï.h', 'prog', 'lib x.so.1', '文.1',
 LINKN = ['lnk', 'link two', 'λ-link']
 TAGS = [None, 'runtime', 'devel', 'man', 'i18n', 'my tag']
 TAGOPTS = [None, None, None, '', 'runtime', 'devel,man', ' devel , runtime', 'nonexistent', 'my tag', 'i18n,runtime,devel,man,my tag']
-SUBS = ['', '', '', 'sub1', 'sub 2']
-SKIPS = ['', '', '', '*', 'sub1', 'sub1, sub 2', 'other', ' sub 2 ']
+# subproject names that are substrings / prefixes / suffixes of each other: the skip list is read by exact membership
+SUBS = ['', '', '', 'sub1', 'sub 2', 'core', 'core-utils', 'utils']
+SKIPS = ['', '', '', '*', 'sub1', 'sub1, sub 2', 'other', ' sub 2 ', 'core-utils', 'core', 'utils, core-utils', 'core-utils,other',
+         'sub', 'sub1x, 2', 'x*', 'x,*', 'core-utils-extra']
 UMASKS = [0o022, 0o022, 0o077, 0o002, 0, 0o027, 'preserve', 0o137, 0o777]
 AMBIENT = [0o022, 0o077, 0, 0o027]
 SRCMODES = [0o644, 0o755, 0o600, 0o444, 0o711, 0o400, 0o640, 0o664, 0o775, 0o700, 0o001, 0o666, 0o010]
@@ -1210,6 +1212,34 @@ def subsec_case(rng: random.Random, idx: int) -> dict:
         # a second round of rewrites, relative to the first one
         again = [touch_entry(rng, ['f', t[0], 0, t[1], t[2], t[3]]) for t in touched if rng.random() < 0.5]
         spec['ops'] += [{'op': 'touch', 'files': again}, dict(base_op, only=True)]
+    return spec
+
+
+SEL_NAMES = ['core', 'core-utils', 'utils', 'co', 're-u', 'c', 'sub1', 'sub 2', 'sub', 'x*', 'core ', 'other']
+
+
+def select_case(rng: random.Random, idx: int) -> dict:
+    """one data rule per subproject whose names contain each other (core / core-utils / utils / co ...), plus the main
+    project, installed with a --skip-subprojects value built from those names: exactly the rules of the subprojects the
+    LIST names are left out"""
+    t0 = 1_500_000_000
+    tree: list = []
+    spec: dict = {'name': f'select-{idx}', 'clean': True, 'fresh': True, 'umask': 0o022, 'prefix': '{P}/usr', 'tree': tree}
+    for k in ('subdirs', 'targets', 'headers', 'man', 'data', 'emptydirs', 'symlinks'):
+        spec[k] = []
+    subs = [''] + rng.sample(SEL_NAMES, 4)
+    for i, sub in enumerate(subs):
+        tree.append(['f', f'src/s{i}/f.txt', 0o644, f'sel {idx} {i}', t0 + i])
+        tag = rng.choice([None, 'runtime', 'devel'])
+        spec['data'].append({'path': f'{{R}}/src/s{i}/f.txt', 'ip': f'share/sel/d{i}/f.txt', 'mode': None, 'sub': sub, 'tag': tag,
+                             'follow': None})
+        spec['emptydirs'].append({'ip': f'var/sel/e{i}', 'mode': None, 'sub': sub, 'tag': tag})
+    items = rng.sample(subs[1:] + SEL_NAMES, rng.randint(1, 3))
+    if rng.random() < 0.15:
+        items.append('*')
+    skip = rng.choice([',', ', ', ' , ']).join(items)
+    op = {'op': 'install', 'destdir': '{R}/dest', 'ambient': 0o022, 'skip': skip, 'tags': rng.choice([None, None, 'runtime', 'devel,runtime'])}
+    spec['ops'] = [op, {'op': 'uninstall'}]
     return spec
 
 
@@ -1644,6 +1674,96 @@ def preserve_stream(ctx: Ctx) -> None:
                 ctx.disagreement({'kind': 'unit', 'line': l, 'impl': w, 'model': g})
 
 
+def doc_selected(skip_value: str, tags_value: T.Optional[str], sub: str, tag: T.Optional[str]) -> bool:
+    """the documented meaning of the selection options: `--skip-subprojects [LIST]` -- "Do not install files from given
+    subprojects", LIST a comma separated list of subproject NAMES, `*` (also the bare flag) for all of them, files of the
+    main project are never skipped; `--tags LIST` -- "Install only targets having one of the given tags" """
+    import re
+    names = [x.strip() for x in re.split(',', skip_value)]
+    if sub != '' and any(n == '*' or n == sub for n in names):
+        return False
+    if tags_value:
+        return any(t.strip() == tag for t in tags_value.split(',')) if tag is not None else False
+    return True
+
+
+def selection_stream(ctx: Ctx) -> None:
+    """the selection options through the command line: argparse (minstall.add_arguments) -> Installer.__init__ ->
+    should_install, with subproject names that are substrings / prefixes / suffixes of each other, empty fields, white
+    space, `*` as an item, inside an item, and as the bare flag; judged against the documented meaning and compared
+    with the model"""
+    from mesonbuild import minstall
+    rng = ctx.rng
+    names = SEL_NAMES + ['a,b', '*', ' core', 's']
+    lines: T.List[str] = []
+    want_model: T.List[str] = []
+    for _ in range(ctx.scale(600, 6000)):
+        argv: T.List[str] = []
+        k = rng.random()
+        if k < 0.08:
+            argv += ['--skip-subprojects']          # bare flag: all subprojects
+        elif k < 0.9:
+            items = [rng.choice(SEL_NAMES + ['*', '', 'core-utils', 'core']) for _ in range(rng.randint(0, 3))]
+            raw = rng.choice([',', ', ', ' , ']).join(items)
+            if rng.random() < 0.2:
+                raw = ' ' + raw + ' '
+            argv += ['--skip-subprojects=' + raw] if rng.random() < 0.5 else ['--skip-subprojects', raw]
+        tv = rng.choice(TAGOPTS)
+        if tv is not None:
+            argv += ['--tags', tv]
+        try:
+            parser = argparse.ArgumentParser()
+            minstall.add_arguments(parser)
+            opts = parser.parse_args(argv)
+            inst = minstall.Installer(opts, None)
+            skipv, tagsv = opts.skip_subprojects, opts.tags
+        except BaseException as e:  # noqa: B036  (argparse exits on a shape change)
+            if isinstance(e, KeyboardInterrupt):
+                raise
+            ctx.obligation_failed('selection-stream', f'meson install {argv}: cannot build the Installer: {type(e).__name__}: {e}')
+            return
+        if not isinstance(skipv, str) or not (tagsv is None or isinstance(tagsv, str)):
+            ctx.obligation_failed('selection-stream', f'option values are no longer strings: {skipv!r} {tagsv!r}')
+            return
+        for sub in [''] + rng.sample(names, 6):
+            for tag in (None, rng.choice(TAGS[1:])):
+                try:
+                    got = bool(inst.should_install(argparse.Namespace(subproject=sub, tag=tag)))
+                    gots = str(int(got))
+                except Exception as e:
+                    got = None
+                    gots = 'ERR:' + type(e).__name__
+                want = doc_selected(skipv, tagsv, sub, tag)
+                ctx.tag('selection:' + ('bare' if argv[:1] == ['--skip-subprojects'] and k < 0.08 else 'list' if skipv else 'none') +
+                        (':tags' if tagsv else '') + (':sub' if sub else ':main'))
+                if got is not want:
+                    why = 'installed-though-listed' if got else 'skipped-though-not-listed' if got is False else 'raised'
+                    ctx.violation(f'selection:{why}:{sub}',
+                                  f'meson install {" ".join(repr(a) for a in argv)}: an entry of subproject {sub!r} with tag {tag!r} '
+                                  f'is {"installed" if got else "left out"}; the options mean {"install it" if want else "leave it out"} '
+                                  f'(skip list {[x.strip() for x in skipv.split(",")]}, tags {tagsv!r})',
+                                  {'selection': {'argv': argv, 'subproject': sub, 'tag': tag}})
+                lines.append(f'should {enc(skipv)}|{enc(tagsv or "")}|{int(tagsv is not None)}|{enc(sub)}|{enc(tag or "")}|{int(tag is not None)}')
+                want_model.append(gots)
+    ctx.count(len(lines))
+    if ctx.model_available and lines:
+        for l, w, g in zip(lines, want_model, ctx.driver('install', lines)):
+            if w != g:
+                ctx.disagreement({'kind': 'unit', 'line': l, 'impl': w, 'model': g})
+
+
+def replay_selection(ctx: Ctx, c: dict) -> None:
+    from mesonbuild import minstall
+    parser = argparse.ArgumentParser()
+    minstall.add_arguments(parser)
+    opts = parser.parse_args(c['argv'])
+    got = bool(minstall.Installer(opts, None).should_install(argparse.Namespace(subproject=c['subproject'], tag=c['tag'])))
+    want = doc_selected(opts.skip_subprojects, opts.tags, c['subproject'], c['tag'])
+    print(f'should_install -> {got}; documented meaning -> {want}')
+    if got is not want:
+        ctx.violation('selection:replay', f'got {got}, want {want}', {'selection': c})
+
+
 def replay_preserve(ctx: Ctx, c: dict) -> None:
     from mesonbuild import minstall
     base = scratch_base()
@@ -1693,6 +1813,8 @@ def make_cases(ctx: Ctx) -> T.List[dict]:
         cases.append(link_case(rng, i))
     for i in range(n // 5):
         cases.append(subsec_case(rng, i))
+    for i in range(n // 5):
+        cases.append(select_case(rng, i))
     return cases
 
 
@@ -1767,6 +1889,8 @@ def run(ctx: Ctx) -> None:
     # decisions that depend on file metadata: the real function on stat tuples; every stat read of minstall.py is known
     preserve_stream(ctx)
     metadata_obligation(ctx)
+    # the selection options through the command-line parser
+    selection_stream(ctx)
     # second stream: build definition -> meson setup -> meson install, judged against Installing.md
     c11_e2e.run_stream(ctx, scratch_base, ctx.scale(28, 250))
     # pure functions last (so that a failing input from a real installation is reported first)
@@ -1817,6 +1941,10 @@ def replay(ctx: Ctx, rep: dict) -> None:
     case = rep.get('case', {})
     if case.get('e2e'):
         c11_e2e.replay_e2e(ctx, case['e2e'], scratch_base)
+        print('violations:', json.dumps(ctx.violations, default=repr)[:2000])
+        return
+    if case.get('selection'):
+        replay_selection(ctx, case['selection'])
         print('violations:', json.dumps(ctx.violations, default=repr)[:2000])
         return
     if case.get('preserve'):
